@@ -412,6 +412,22 @@ func (sc *SpecScope) call(x *ast.CallExpr) Val {
 			return sc.fail("quantifier variable")
 		}
 		lo, hi := sc.intOf(arg(1)), sc.intOf(arg(2))
+		// a small concrete range (e.g. over a string literal) is expanded: no quantifier
+		if l, ok1 := c.constInt(lo); ok1 {
+			if h, ok2 := c.constInt(hi); ok2 && h-l <= 40 {
+				var parts []string
+				for k := l; k < h; k++ {
+					n := sc.child()
+					n.vars[id.Name] = vConstInt(k)
+					parts = append(parts, n.boolOf(arg(3)))
+					sc.err = append(sc.err, n.err...)
+				}
+				if name == "forall" {
+					return vBool(sAnd(parts...))
+				}
+				return vBool(sOr(parts...))
+			}
+		}
 		c.nfresh++
 		bv := fmt.Sprintf("%s?%d", id.Name, c.nfresh)
 		n := sc.child()
@@ -420,17 +436,32 @@ func (sc *SpecScope) call(x *ast.CallExpr) Val {
 		for k := range sc.bound {
 			n.bound[k] = true
 		}
+		c.openBound = append(c.openBound, bv)
 		body := n.boolOf(arg(3))
+		c.openBound = c.openBound[:len(c.openBound)-1]
 		sc.err = append(sc.err, n.err...)
 		rng := sAnd(sx("<=", lo, bv), sx("<", bv, hi))
 		// quantify over the absolute heap index when the body reads slice elements at
 		// (+ OFF k): the trigger becomes H(ref, j), which matches any ground read
-		if off := offsetOf(body, bv); off != "" && !strings.Contains(off, "?") {
-			j := bv + "a"
-			if name == "forall" {
-				return vBool(fmt.Sprintf("(forall ((%s Int)) (let ((%s (- %s %s))) %s))", j, bv, j, off, sImp(rng, body)))
+		if offs := offsetsOf(body, bv); len(offs) > 0 {
+			// one copy per indexed slice (equivalent formulas): each gives a plain trigger
+			// H(ref, j) for the reads of that slice
+			var copies []string
+			for n, off := range offs {
+				if n >= 3 {
+					break
+				}
+				j := fmt.Sprintf("%sa%d", bv, n)
+				if name == "forall" {
+					copies = append(copies, fmt.Sprintf("(forall ((%s Int)) (let ((%s (- %s %s))) %s))", j, bv, j, off, sImp(rng, body)))
+				} else {
+					copies = append(copies, fmt.Sprintf("(exists ((%s Int)) (let ((%s (- %s %s))) %s))", j, bv, j, off, sAnd(rng, body)))
+				}
 			}
-			return vBool(fmt.Sprintf("(exists ((%s Int)) (let ((%s (- %s %s))) %s))", j, bv, j, off, sAnd(rng, body)))
+			if name == "forall" {
+				return vBool(sAnd(copies...))
+			}
+			return vBool(copies[0])
 		}
 		if name == "forall" {
 			return vBool(fmt.Sprintf("(forall ((%s Int)) %s)", bv, sImp(rng, body)))
@@ -449,7 +480,9 @@ func (sc *SpecScope) call(x *ast.CallExpr) Val {
 		for k := range sc.bound {
 			n.bound[k] = true
 		}
+		c.openBound = append(c.openBound, bv)
 		body := n.boolOf(arg(1))
+		c.openBound = c.openBound[:len(c.openBound)-1]
 		sc.err = append(sc.err, n.err...)
 		q := "forall"
 		if name == "existsint" {
@@ -529,8 +562,10 @@ func (sc *SpecScope) call(x *ast.CallExpr) Val {
 		c.nfresh++
 		bv := fmt.Sprintf("u?%d", c.nfresh)
 		idx := sx("+", v.off(), bv)
+		c.openBound = append(c.openBound, bv)
 		a := c.readElem(sc.cur, v.Elem, v.ref(), idx)
 		b := c.readElem(sc.old, v.Elem, v.ref(), idx)
+		c.openBound = c.openBound[:len(c.openBound)-1]
 		return vBool(fmt.Sprintf("(forall ((%s Int)) %s)", bv, sImp(sAnd(sx("<=", "0", bv), sx("<", bv, v.ln())), c.valEq(a, b))))
 	case "sameslice":
 		a, b := sc.eval(arg(0)), sc.eval(arg(1))
@@ -581,6 +616,40 @@ func (sc *SpecScope) call(x *ast.CallExpr) Val {
 			as = append(as, sc.intOf(x.Args[i]))
 		}
 		return vInt(sx(sym, as...))
+	}
+	// application of a function value (parameter, captured variable, slice element)
+	{
+		var fv Val
+		isFn := false
+		if name != "" {
+			if v, ok := sc.vars[name]; ok && v.K == KFn {
+				fv, isFn = v, true
+			} else if !ok && !sc.pure {
+				if v, ok := c.lookupByName(sc.cur, name); ok && v.K == KFn {
+					fv, isFn = v, true
+				}
+			}
+		} else {
+			v := sc.eval(x.Fun)
+			if v.K == KFn {
+				fv, isFn = v, true
+			}
+		}
+		if isFn {
+			sig, _ := fv.T.Underlying().(*types.Signature)
+			if sig == nil {
+				return sc.fail("application of a function value of unknown type")
+			}
+			var args []Val
+			for i := range x.Args {
+				a := sc.eval(x.Args[i])
+				if i < sig.Params().Len() && a.T == nil {
+					a.T = sig.Params().At(i).Type()
+				}
+				args = append(args, a)
+			}
+			return c.applyFn(sc.cur, fv, sig, args)
+		}
 	}
 	// conversion to a named type: T(x)
 	if t := sc.lookupType(name); t != nil && len(x.Args) == 1 {
@@ -834,6 +903,7 @@ func (c *FnCtx) strLit(s string) string {
 	c.fact("(= (slen strEmpty) 0)")
 	name := fmt.Sprintf("str!%d", len(c.strLits))
 	c.declare(name, nil, "Str")
+	c.knownInts[sx("slen", name)] = int64(len(s))
 	c.emit(fmt.Sprintf("(assert (= (slen %s) %d))", name, len(s)))
 	if len(s) <= 64 {
 		for i := 0; i < len(s); i++ {
@@ -963,7 +1033,16 @@ func (c *FnCtx) constVal(v constant.Value, t types.Type) Val {
 // (+ OFF bv) or (+ OFF (+ bv c)) with the same OFF (an atom or a parenthesised term not
 // mentioning bv).
 func offsetOf(body, bv string) string {
-	off := ""
+	if o := offsetsOf(body, bv); len(o) > 0 {
+		return o[0]
+	}
+	return ""
+}
+
+// offsetsOf lists the distinct slice offsets OFF for which the body has an index sum
+// (+ OFF bv), (+ OFF (+ bv c)) or (+ OFF (- bv c)).
+func offsetsOf(body, bv string) []string {
+	var offs []string
 	for i := 0; i+3 < len(body); i++ {
 		if !strings.HasPrefix(body[i:], "(+ ") {
 			continue
@@ -1003,11 +1082,20 @@ func offsetOf(body, bv string) string {
 		if _, err := strconv.Atoi(x); err == nil {
 			continue
 		}
-		if off == "" {
-			off = x // the first indexed slice decides (its reads become H(ref, j), a plain trigger)
+		if strings.Contains(x, "?") {
+			continue
+		}
+		dup := false
+		for _, o := range offs {
+			if o == x {
+				dup = true
+			}
+		}
+		if !dup {
+			offs = append(offs, x)
 		}
 	}
-	return off
+	return offs
 }
 
 // emitAxiomsFor emits (once) every axiom that mentions the named spec function.
@@ -1075,4 +1163,16 @@ func (c *FnCtx) useCompositeSpecFunc(sf *SpecFunc, rt types.Type, args []string,
 		c.emitAxiomsFor(sf.Name)
 	}
 	return v
+}
+
+// constInt evaluates a term to an integer when it is a numeral or a term of known value
+// (the length of a string literal).
+func (c *FnCtx) constInt(t string) (int64, bool) {
+	if n, err := strconv.ParseInt(t, 10, 64); err == nil {
+		return n, true
+	}
+	if n, ok := c.knownInts[t]; ok {
+		return n, true
+	}
+	return 0, false
 }
